@@ -12,9 +12,11 @@ import (
 	"fmt"
 	"io"
 	"os"
+	"path/filepath"
 	"runtime"
 	"strings"
 	"sync"
+	"syscall"
 	"testing"
 	"time"
 
@@ -533,6 +535,12 @@ type c11ProcObs struct {
 	SecondUs int64   `json:"second_result_us"`
 	StartErr string  `json:"start_err,omitempty"`
 	Hang     bool    `json:"hang,omitempty"`
+	// kind selfexit-unread: the peer ends without reading its stdin while the runner still writes to it
+	// OS kinds: is the peer process still there (up to 2 s) after result() has returned?  Process.tla: GoneWhenDone
+	AliveAfter bool  `json:"alive_after,omitempty"`
+	Pid        int   `json:"pid,omitempty"`
+	WriteHang bool   `json:"write_hang,omitempty"`
+	WriteErr  string `json:"write_err,omitempty"`
 }
 
 func TestVerifC11Process(t *testing.T) {
@@ -542,13 +550,15 @@ func TestVerifC11Process(t *testing.T) {
 	}
 	defer out.Close()
 	kinds := strings.Split(verifutil.Env("VERIF_KINDS", "polite,selfexit"), ",")
+	pidDir := t.TempDir()
 	var wg sync.WaitGroup
 	for _, kind := range kinds {
 		wg.Add(1)
 		go func(kind string) {
 			defer wg.Done()
 			obs := c11ProcObs{Kind: kind, Fired: []int{0, 0}}
-			start := runCommand([]string{os.Args[0], "verif-helper", "proc", kind, "-"})
+			pidLog := filepath.Join(pidDir, kind+".log")
+			start := runCommand([]string{os.Args[0], "verif-helper", "proc", strings.TrimSuffix(kind, "-unread"), pidLog})
 			inproc := strings.HasPrefix(kind, "inproc-")
 			release := make(chan struct{})
 			defer close(release)
@@ -576,10 +586,21 @@ func TestVerifC11Process(t *testing.T) {
 			}
 			// as runTestCasesForServer does right after writing the request: close the peer's stdin
 			// (otherwise the exec layer's stdin copier keeps cmd.Wait from returning)
-			_ = proc.stdin.Close()
+			writeDone := make(chan error, 1)
+			if kind == "selfexit-unread" {
+				// ... unless the peer is gone before it has read what the runner still writes (more than the OS
+				// pipe holds): Process.tla closes our ends of the pipes when the process is gone, so the write
+				// must come back with an error instead of waiting for a reader that no longer exists
+				go func() {
+					_, werr := proc.stdin.Write(make([]byte, 1<<20))
+					writeDone <- werr
+				}()
+			} else {
+				_ = proc.stdin.Close()
+			}
 			time.Sleep(300 * time.Millisecond) // let the child install its signal handling
 			t0 := time.Now()
-			if kind != "selfexit" {
+			if !strings.HasPrefix(kind, "selfexit") {
 				proc.abort()
 				proc.abort() // idempotent
 			}
@@ -595,6 +616,36 @@ func TestVerifC11Process(t *testing.T) {
 			}
 			obs.Seconds = time.Since(t0).Seconds()
 			obs.Result = "exited"
+			if !inproc {
+				if data, rerr := os.ReadFile(pidLog); rerr == nil {
+					var rec struct {
+						Pid int `json:"pid"`
+					}
+					if json.Unmarshal(bytes.SplitN(data, []byte("\n"), 2)[0], &rec) == nil && rec.Pid > 0 {
+						obs.Pid = rec.Pid
+						obs.AliveAfter = true
+						for deadline := time.Now().Add(2 * time.Second); time.Now().Before(deadline); time.Sleep(20 * time.Millisecond) {
+							if syscall.Kill(rec.Pid, 0) != nil {
+								obs.AliveAfter = false
+								break
+							}
+						}
+						if obs.AliveAfter {
+							_ = syscall.Kill(rec.Pid, syscall.SIGKILL) // do not leave it behind
+						}
+					}
+				}
+			}
+			if kind == "selfexit-unread" {
+				select {
+				case werr := <-writeDone:
+					if werr != nil {
+						obs.WriteErr = werr.Error()
+					}
+				case <-time.After(8 * time.Second):
+					obs.WriteHang = true
+				}
+			}
 			if res != nil && strings.Contains(res.Error(), "took too long") {
 				obs.Result = "took-too-long"
 			}
